@@ -10,7 +10,7 @@ import sys
 import time
 
 VERIF = os.path.dirname(os.path.dirname(os.path.abspath(__file__)))
-EVID = os.path.join(VERIF, 'evidence')
+EVID = os.environ.get('SPQA_EVIDENCE') or os.path.join(VERIF, 'evidence')
 KNOWN = os.path.join(VERIF, 'known_findings.txt')
 
 
@@ -93,7 +93,7 @@ class Report:
         lines = []
         for k, o in enumerate(viol):
             p = os.path.join('evidence', 'violations', '%s-%d.json' % (self.pid, k))
-            json.dump(o, open(os.path.join(VERIF, p), 'w'), indent=1, default=str)
+            json.dump(o, open(os.path.join(EVID, 'violations', '%s-%d.json' % (self.pid, k)), 'w'), indent=1, default=str)
             print('[%s] refuted: %s | %s | %s%s' % (self.pid, o['rule'], o['subject'], o.get('detail', ''),
                                                    (' | at ' + str(o['loc'])) if o.get('loc') else ''))
             if o.get('witness') is not None:
